@@ -11,14 +11,20 @@ namespace SemVerif
 /-- declaring a value under an internal name the root registry does not hold yet -/
 theorem drel_declare {s : St} {ss : SpecSt} (hr : DRel s ss) (n : Name) (v : Value) (i : Instr) (d : DStmt)
     (hfresh : v.innerName ∉ s.root.innerNames)
-    (habs : abstractStep s.abs i = ({ s.abs with decls := s.abs.decls ++ [v.innerName] } : AbsSt).emit d) :
+    (habs : abstractStep s.abs i = ({ s.abs with decls := s.abs.decls ++ [v.innerName] } : AbsSt).emit d)
+    (hw : i.writes = none) (hrd : ∀ q ∈ i.reads, q ≤ s.curReg ∧ s.abs.bound q = true) :
     DRel (((s.insertValue n v).registerInner v.innerName).push i) ((ss.declare n v.ty v.mutable).1.emit d) := by
   have hnot : v.innerName ∉ s.abs.decls := fun hm => hfresh (hr.reg _ hm)
   have habs' : (((s.insertValue n v).registerInner v.innerName).push i).abs =
       ({ s.abs with decls := s.abs.decls ++ [v.innerName] } : AbsSt).emit d := by
     rw [abs_push, abs_registerInner, abs_insertValue, habs]
   have hlen : s.abs.decls.length = ss.next := hr.next
-  refine ⟨⟨?_, ?_⟩, ?_, ?_, ?_⟩
+  refine ⟨⟨?_, ?_⟩, ?_, ?_, ?_, ?_⟩
+  rotate_left 5
+  · apply rd_push_nowrite (rd_insertRegister hr.rd _ _ _) _ hw
+    intro q hq
+    rw [curReg_insertRegister, abs_registerInner, abs_insertValue]
+    exact hrd q hq
   · unfold ScopeRel
     rw [vals_push, vals_registerInner]
     obtain ⟨x, rest, hx, hins⟩ := vals_insertValue n v s
@@ -83,7 +89,7 @@ theorem den_initParams : ∀ (ps : List (Name × ATy)) (s : St) (ss : SpecSt), P
         intro hc
         have := hkeys n hc; rw [hlook] at this; simp at this
       have hstep := drel_declare hr n ⟨n, t.toTy, false, false, false⟩ (.fnArg ⟨n, t.toTy, false, false, false⟩ ⟨n, t.toTy⟩)
-        (.param s.abs.decls.length) hfresh (by simp [abstractStep, AbsSt.emit])
+        (.param s.abs.decls.length) hfresh (by simp [abstractStep, AbsSt.emit]) rfl (fun q hq => by simp [Instr.reads] at hq)
       have hnext : (.param s.abs.decls.length : DStmt) = .param (ss.declare n t.toTy false).2 := by
         rw [hr.next]; rfl
       rw [hnext] at hstep
@@ -212,18 +218,21 @@ theorem den_bodyStmts (hg : GlobRel g rg) (hn : GNames g) (resTy : Ty) : ∀ (l 
 /-! ### The whole function -/
 
 theorem drel_init : DRel St.init SpecSt.init := by
-  refine ⟨⟨?_, ?_⟩, rfl, rfl, ?_⟩
+  refine ⟨⟨?_, ?_⟩, rfl, rfl, ?_, ?_⟩
   · unfold ScopeRel St.vals St.frames
     exact ValsRel.cons (fun n => by simp [St.init, Block.fresh, assocGet, rlookup]) ValsRel.nil
   · show DVals [] [[]] [[]]
     exact DVals.cons (fun n => by simp [assocGet, rlookup]) DVals.nil
   · intro n hn; cases hn
+  · refine ⟨by intro b hb; simp [St.init] at hb, rfl, ?_⟩
+    intro pre i post h
+    simp [St.init, Block.fresh] at h
 
 /-- **T2** for one function: if its analysis reports no error, the abstract reading of the emitted
 root stack is the statement list the source denotes -/
 theorem T2_function (hg : GlobRel g rg) (hn : GNames g) (f : FnDecl) (hok : BodyStmt.anaOKL f.body = true)
     (he : (functionBody g f).errors = []) :
-    abstractStack (functionBody g f).root.context = specStmts false rg f := by
+    abstractStack (functionBody g f).root.context = specStmts false rg f ∧ RdInv (functionBody g f) := by
   unfold functionBody at he ⊢
   unfold specStmts
   dsimp only at he ⊢
@@ -250,6 +259,6 @@ theorem T2_function (hg : GlobRel g rg) (hn : GNames g) (f : FnDecl) (hok : Body
       simp [St.addErr] at this
     · rfl
   subst hrc
-  exact r2.out
+  exact ⟨r2.out, r2.rd⟩
 
 end SemVerif
